@@ -250,10 +250,10 @@ static void flowCase(Rng &rng, CaseResult &r, const std::string &profile, unsign
 // ------------------------------------------------------------------------------------------------
 // C11, second source of legal placements: direct construction by packing cells into free segments
 static void c11Constructed(Rng &rng, CaseResult &r) {
-  bool comb = rng.chance(0.15);
-  GenOpts o = makeProfile(rng, comb ? "comb" : rng.chance(0.25) ? "big20" : "rowhigh");
+  bool comb = rng.chance(0.15), stag = !comb && rng.chance(0.15);
+  GenOpts o = makeProfile(rng, comb ? "comb" : stag ? "staggered" : rng.chance(0.25) ? "big20" : "rowhigh");
   o.multiRow = false;
-  o.turned = !comb && rng.chance(0.5);
+  o.turned = !comb && !stag && rng.chance(0.5);
   Circuit c0 = genCircuit(rng, o);
   std::string pdesc;
   ColoquinteParameters params = genParams(rng, false, &pdesc);
@@ -800,18 +800,18 @@ static void c07ScaleCase(uint64_t idx, Rng &rng, CaseResult &r) {
 int main(int argc, char **argv) {
   std::vector<vf::Part> parts;
   auto add = [&](const std::string &name, vf::CaseFn fn, double budget = 20) { parts.push_back({name, fn, budget}); };
-  for (std::string prof : {"general", "rowhigh-any", "multirow", "turned", "polarity", "dense", "obstruction", "big", "crowded", "faraway", "comb"}) {
+  for (std::string prof : {"general", "rowhigh-any", "multirow", "turned", "polarity", "dense", "obstruction", "big", "crowded", "faraway", "comb", "staggered"}) {
     add("c01." + prof, [prof](uint64_t, Rng &rng, CaseResult &r) { flowCase(rng, r, prof, O_C01); });
     add("c02.api." + prof, [prof](uint64_t, Rng &rng, CaseResult &r) { flowCase(rng, r, prof, O_C02); });
     add("c04." + prof, [prof](uint64_t, Rng &rng, CaseResult &r) { flowCase(rng, r, prof, O_C04); });
   }
-  for (std::string prof : {"general", "nets", "polarity", "dense", "multirow", "rowhigh-any", "crowded", "faraway", "big"})
+  for (std::string prof : {"general", "nets", "polarity", "dense", "multirow", "rowhigh-any", "crowded", "faraway", "big", "staggered"})
     add("c05." + prof, [prof](uint64_t, Rng &rng, CaseResult &r) { flowCase(rng, r, prof, O_C05); });
   for (std::string prof : {"general", "manyfixed", "dense", "obstruction", "crowded", "faraway", "big"})
     add("c03.flow." + prof, [prof](uint64_t, Rng &rng, CaseResult &r) { flowCase(rng, r, prof, O_C03); });
   add("c03.global", [](uint64_t, Rng &rng, CaseResult &r) { c03Global(rng, r); });
   add("c03.nudge", [](uint64_t, Rng &rng, CaseResult &r) { c03Nudge(rng, r); }, 60);
-  for (std::string prof : {"general", "rowhigh", "obstruction", "polarity", "dense", "crowded", "big20", "comb"})
+  for (std::string prof : {"general", "rowhigh", "obstruction", "polarity", "dense", "crowded", "big20", "comb", "staggered"})
     add("c11.relegalize." + prof, [prof](uint64_t, Rng &rng, CaseResult &r) { flowCase(rng, r, prof, O_C11); });
   add("c11.constructed", [](uint64_t, Rng &rng, CaseResult &r) { c11Constructed(rng, r); });
   for (std::string prof : {"general", "degenerate", "big", "wide", "dense", "multirow", "obstruction", "floating", "blocked"})
